@@ -24,11 +24,12 @@ type slashEval struct {
 	f         *big.Rat
 	cuts      map[string]sdkmath.Int // unbonding reductions per denom (must reach the fee collector)
 	destPos   map[PosKey]bool        // destination positions of pending redelegations out of the slashed validator(s)
+	ambiguous map[string]bool        // validator|denom where the full-withdraw rounding decision is within fixed-point error
 }
 
 // evalSlashes advances the ledger and builds the models. Must be called exactly once per step.
 func evalSlashes(l *Ledger, st *Step) *slashEval {
-	ev := &slashEval{pre: st.Pre, post: st.Post, cuts: map[string]sdkmath.Int{}, destPos: map[PosKey]bool{}}
+	ev := &slashEval{pre: st.Pre, post: st.Post, cuts: map[string]sdkmath.Int{}, destPos: map[PosKey]bool{}, ambiguous: map[string]bool{}}
 	ev.model = ShareStateOf(st.Pre)
 	ev.single = len(st.Slashes) == 1
 	for _, s := range st.Slashes {
@@ -40,8 +41,12 @@ func evalSlashes(l *Ledger, st *Step) *slashEval {
 			ev.scaled.SlashBonded(s.Val, f)
 		}
 		ev.model.SlashBonded(s.Val, f)
-		for _, p := range ev.model.SlashRedelegationsAsImplemented(groups, f) {
+		touched, amb := ev.model.SlashRedelegationsAsImplementedAmb(groups, f)
+		for _, p := range touched {
 			ev.destPos[p] = true
+		}
+		for k := range amb {
+			ev.ambiguous[k] = true
 		}
 		for _, g := range groups {
 			ev.destPos[PosKey{Del: g.Del, Val: g.Dst, Denom: g.Denom}] = true
@@ -97,6 +102,10 @@ func allPositions(a, b *Snap) []PosKey {
 // Any mismatch is a violation that no known finding excuses.
 func compareModel(r *Runner, clause string, ev *slashEval) bool {
 	for _, p := range allPositions(ev.pre, ev.post) {
+		if ev.ambiguous[p.Val+"|"+p.Denom] {
+			r.Probe("slash_full_withdraw_decision_within_rounding_error")
+			continue
+		}
 		want := ev.model.PosValue(p)
 		got := ev.post.PosValue(p)
 		// amount moved on this validator: at most what it holds
@@ -180,7 +189,7 @@ func (m *monC06) OnStep(r *Runner, st *Step) {
 	// g follows from the validator-share algebra. Value taken from redelegation destinations on the
 	// same validator may only add to that (redistribution), never subtract.
 	for _, p := range allPositions(pre, post) {
-		if ev.destPos[p] {
+		if ev.destPos[p] || ev.ambiguous[p.Val+"|"+p.Denom] {
 			continue
 		}
 		base := ev.scaled.PosValue(p)
@@ -326,6 +335,9 @@ func (m *monC07) OnStep(r *Runner, st *Step) {
 	for _, p := range sortedPos(ev.destPos) {
 		if _, ok := st.Pre.Dels[p]; !ok {
 			r.Probe("c07_destination_emptied")
+			continue
+		}
+		if ev.ambiguous[p.Val+"|"+p.Denom] {
 			continue
 		}
 		base := ev.scaled.PosValue(p)
